@@ -32,6 +32,26 @@ CHECKS = {
    technique="bounded-exhaustive query histories executed in lock-step on all six database variants of the real code, differential oracle",
    text="Every history of <=2 (quick) / <=3 (thorough) steps over the 35-step alphabet H (inserts/updates/removals of nodes, edges, values, aliases, indexes; committing and aborted transactions; a query failing midway) from 4 base states is executed in lock-step on DbMemory, DbFile, Db and DbAny x {memory,file,mapped}; every step result (Ok payload or error text) and, at the end of every history, the full observable dump must be identical.",
    note="Variant-independent defects are invisible to this differential oracle (they are the business of C08-C18). Values/keys outside the alphabet are not covered."),
+ "C08": dict(level="model_checking", engine="core_checks", design="§4/C08-C11,C18",
+   technique="bounded-exhaustive command sequences on the real database in lock-step with a reference model (abstract multigraph), ids learned and constrained",
+   text="Every sequence of <=5 (quick) / <=6 (thorough) commands over a 14-command alphabet (single, many-to-many and each edge inserts incl. self-loops, parallel edges and a missing endpoint; removals by id, alias and search; id reuse) from 2 base states runs on DbMemory (branching by copy) and on RefDb; after every command: acceptance agrees, new ids have the right sign and a free slot, node count, edge endpoints, per-node total/outgoing/incoming edge counts, cascade removal incl. properties, removed elements not selectable.",
+   note="RefDb is written from the property statement and the query reference; values/ids outside the alphabet not covered."),
+ "C09": dict(level="model_checking", engine="core_checks", design="§4/C08-C11,C18",
+   technique="bounded-exhaustive command sequences on the real database in lock-step with a reference model (per-element ordered key-value map)",
+   text="Every sequence of <=5 / <=6 commands over a 14-command alphabet (insert values single/multi/uniform by id, alias, search; insert-or-update of nodes and edges; remove values; element removal and id reuse) from 2 base states; after every command each element's values (in map order while no key was removed or rolled back, as a set afterwards), keys, key count, selection by keys in the requested order, missing key => error, removed element has no properties.",
+   note="The relative order of survivors after a key removal or a rolled back query is deliberately not constrained (C13 allows it)."),
+ "C10": dict(level="model_checking", engine="core_checks", design="§4/C08-C11,C18",
+   technique="bounded-exhaustive command sequences on the real database in lock-step with a reference model (alias bijection)",
+   text="Every sequence of <=5 / <=6 commands over a 16-command alphabet (alias on new and existing nodes, re-alias, steal, alias for an edge id, empty alias through both insert paths, multi-alias inserts, alias removal, node/edge removal by id and alias, an aborted transaction moving aliases) from 2 base states; after every command: acceptance agrees (invalid requests rejected without effect), select-all-aliases equals the bijection, per-node alias and alias resolution agree with it.",
+   note="as C08"),
+ "C11": dict(level="model_checking", engine="core_checks", design="§4/C08-C11,C18",
+   technique="bounded-exhaustive command sequences on the real database in lock-step with a reference model (index set over current values)",
+   text="Every sequence of <=4 / <=5 commands over a 16-command alphabet (value insert/replace/remove on indexed and non-indexed keys, element removal incl. cascaded edges, index create/remove/create-again, aborted and committing transactions mixing them) from 2 base states; after every command: index listing = per indexed key the number of elements having it, index search for 3 keys x 3 values = exactly the elements whose current value matches (error iff no such index), duplicate index creation rejected.",
+   note="as C08"),
+ "C18": dict(level="model_checking", engine="core_checks", design="§4/C08-C11,C18",
+   technique="bounded-exhaustive command sequences on the real database in lock-step with a reference model; elements search compared at every state incl. all offset/limit pairs",
+   text="At every state reached by <=4 / <=5 commands of the C08 alphabet (removals, id reuse) `search().elements()` must list exactly the existing elements in increasing order of |id|; with node(), edge() and keys() conditions exactly the matching ones in that order; and for every (offset, limit) in [0..n+1]^2 the corresponding slice.",
+   note="as C08"),
  "C13": dict(level="model_checking", engine="core_checks", design="§4/C13",
    technique="bounded-exhaustive enumeration of aborted transaction bodies and partially failing queries from all states of a bounded history tree, on the real database",
    text="From every state reached by <=1 (quick) / <=2 (thorough) steps of H from 4 base states: every transaction body of 1-2 queries over a 16-query body alphabet and every 3-query body over its 9-query core (value replacement, alias re-assignment and stealing, node removal with edges, index create/remove ...) whose closure then returns Err, and each of 10 single queries that fail after partial work. The order-insensitive canonical dump (elements, endpoints, property sets, aliases, index contents, node count) must be unchanged; every step runs under a hash-probe budget so a rollback that loops forever is reported, not waited for.",
